@@ -699,7 +699,9 @@ Inv_C06_ArchivedNotReconciled ==
 ---------------------------------------------------------------------------
 (* C09 paused means hands-off *)
 
-PausedPass(pr) == pr.hasSnap /\ SnapPaused(pr) /\ ~SnapDeleting(pr) /\ ~SnapArchived(pr)
+\* (a set that has completed archival - condition Archived=True - is final: the controller does not touch it again,
+\* whatever a user writes into lifecycleState afterwards; Inv_C06_ArchivedNotReconciled)
+PausedPass(pr) == pr.hasSnap /\ SnapPaused(pr) /\ ~SnapDeleting(pr) /\ ~SnapArchived(pr) /\ ~CondTrue(pr.snap.cr, "Archived")
 
 Inv_C09_NoWritesWhilePaused ==
     (CtlWrite /\ ~W.dry /\ PausedPass(PR) /\ W.key \in ListedObjKeys(PR)) => FALSE
@@ -880,7 +882,9 @@ Inv_C07_ProgressOnMismatch ==
        /\ ~pass[W.actor].apiErr /\ pass[W.actor].statusWritten)
     => LET pr == pass[W.actor]
            noCurrent == pr.listed = <<>> \/ \A i \in DOMAIN pr.listed :
-                            pr.listed[i].cr.revision = MaxRev(pr.listed) => pr.listed[i].cr.hash # pr.status.cr.hash IN
+                            \* judged on the CONTENT (the projection's own hash of phases, probes, success delay), not on the
+                            \* hash the controller computed: a template edit the controller's hash does not see is still an edit
+                            pr.listed[i].cr.revision = MaxRev(pr.listed) => pr.listed[i].cr.tmplHash # pr.snap.cr.tmplHash IN
        (~pr.snap.cr.paused /\ pr.snap.cr.phases # <<>> /\ (\A i \in DOMAIN pr.listed : pr.listed[i].cr.revision # 0) /\ noCurrent
           /\ pr.status.cr.collisions = pr.snap.cr.collisions)
        => \/ pr.created
